@@ -230,7 +230,7 @@ def setup(I):
     cx.st = st
     cx.cur = {}       # name term id -> current state object
     cx.user = {}      # label -> object handed in by the user
-    I.__dict__.setdefault('list_loop_handlers', {})['for step in self.steps'] = bake_loop
+    I.__dict__.setdefault('list_loop_handlers', {})['iter:self.steps'] = bake_loop
     return cx
 
 
